@@ -710,3 +710,37 @@ M('C12', 'c12-timeout-finalized-as-error', 'openhtf/core/test_state.py',
   "      self._finalize(test_record.Outcome.TIMEOUT)",
   "      self._finalize(test_record.Outcome.ERROR)",
   'a phase time-out gives ERROR instead of TIMEOUT')
+
+# ---------------------------------------------------------------- C11
+M('C11', 'c11-no-deepcopy-of-measurements', 'openhtf/core/test_state.py',
+  "    measurements_copy = [\n        copy.deepcopy(measurement) for measurement in phase_desc.measurements\n    ]",
+  "    measurements_copy = [\n        measurement for measurement in phase_desc.measurements\n    ]",
+  'a run writes into the declared measurements (later runs do not start UNSET)')
+M('C11', 'c11-attr_copy-shares-lists', 'openhtf/util/data.py',
+  "    else:\n      new_value = copy.copy(value)\n    kwargs[init_name] = new_value",
+  "    else:\n      new_value = value\n    kwargs[init_name] = new_value",
+  'attr_copy shares lists and dicts with the source')
+M('C11', 'c11-shared-user-state', 'openhtf/core/test_state.py',
+  "    self.user_defined_state = {}  # type: Any",
+  "    self.user_defined_state = vars(type(test_desc)).get('_none') or getattr(test_desc.phase_sequence, 'nodes')[0].extra_kwargs.setdefault('_vf_state', {}) if test_desc.phase_sequence.nodes and hasattr(test_desc.phase_sequence.nodes[0], 'extra_kwargs') else {}  # type: Any",
+  'user state dict survives from run to run')
+M('C11', 'c11-with-plugs-returns-self', 'openhtf/core/phase_descriptor.py',
+  "      # Still a copy: callers are free to modify what with_plugs() returns.\n      return data.attr_copy(self)",
+  "      return self",
+  'with_plugs without a match returns the source (F10a regression)')
+M('C11', 'c11-wrap_or_copy-no-copy', 'openhtf/core/phase_descriptor.py',
+  "      retval = data.attr_copy(func)\n    else:\n      retval = cls(func)",
+  "      retval = func\n    else:\n      retval = cls(func)",
+  'decorating a PhaseDescriptor modifies it in place')
+M('C11', 'c11-metadata-not-copied', 'openhtf/core/test_state.py',
+  "        metadata=copy.deepcopy(test_desc.metadata),",
+  "        metadata=test_desc.metadata,",
+  'record metadata is the descriptor metadata object')
+M('C11', 'c11-sequence-no-node-copy', 'openhtf/core/phase_collections.py',
+  "  elif isinstance(n, phase_nodes.PhaseNode):\n    yield n.copy()",
+  "  elif isinstance(n, phase_nodes.PhaseNode):\n    yield n",
+  'nesting a node into a sequence/group/test keeps the same object')
+M('C11', 'c11-with-args-mutates-source-kwargs', 'openhtf/core/phase_descriptor.py',
+  "    new_info = data.attr_copy(self)\n    new_info.options = new_info.options.format_strings(**kwargs)\n    new_info.extra_kwargs.update(known_arguments)",
+  "    new_info = data.attr_copy(self)\n    new_info.options = new_info.options.format_strings(**kwargs)\n    new_info.extra_kwargs = self.extra_kwargs\n    new_info.extra_kwargs.update(known_arguments)",
+  'with_args writes the new arguments into the source phase')
